@@ -363,6 +363,11 @@ func init() {
 					dst = "x"
 				}
 				jobs = append(jobs, Job{Harness: "VX_C07_eval", Params: P("expr", e, "dst", dst, "n", "2", "P", "3")})
+				if tier == "thorough" && k%2 == 0 {
+					// every second expression also on 3 of 4 physical rows and on a full-length permuted frame
+					jobs = append(jobs, Job{Harness: "VX_C07_eval", Params: P("expr", e, "dst", dst, "n", "3", "P", "4")})
+					jobs = append(jobs, Job{Harness: "VX_C07_eval", Params: P("expr", e, "dst", dst, "n", "3", "P", "3")})
+				}
 			}
 			for _, tc := range []string{"const-temp-0", "colcol-temp-0", "unary-temp-0", "const-temp-1"} {
 				for _, e := range []string{"( - #i a )", "( u2 ( - a b ) #i )", "( abs ( u1 a ) )", "( - a b #i )", "#i"} {
@@ -382,7 +387,7 @@ func init() {
 		},
 		Bounds: func(tier string) string {
 			if tier == "thorough" {
-				return "frames of n=2 logical rows over P=3 physical rows in every arrangement; all int expression trees of depth <=2 over {a,b,const} x {-,+,u2,abs,u1} (u1/u2 user-registered uninterpreted functions), depth-3 samples, n-ary Expr up to 4 args, float/bool/string samples, leaf expressions; destinations new/source/other; frames that already hold a *-temp-* column; 12 malformed/ill-typed expressions"
+				return "frames of n=2 logical rows over P=3 physical rows in every arrangement (every second expression also n=3 of P=4 and n=P=3); all int expression trees of depth <=2 over {a,b,const} x {-,+,u2,abs,u1} (u1/u2 user-registered uninterpreted functions), depth-3 samples, n-ary Expr up to 4 args, float/bool/string samples, leaf expressions; destinations new/source/other; frames that already hold a *-temp-* column; 12 malformed/ill-typed expressions"
 			}
 			return "frames of n=2 logical rows over P=3 physical rows in every arrangement; all int expression trees of depth 1 and a quarter of depth 2 over {a,b,const} x {-,+,u2,abs,u1} (u1/u2 user-registered uninterpreted functions), n-ary Expr up to 4 args, float/bool/string samples, leaf expressions; destinations new/source/other; frames that already hold a *-temp-* column; 12 malformed/ill-typed expressions"
 		},
@@ -768,7 +773,7 @@ func init() {
 			// ReadJSON of what ToJSON wrote (behind the reference decoder)
 			rj := []string{"int,bool", "float", "enum,float", "string", "bool,enum,int,float"}
 			if tier == "thorough" {
-				rj = append(rj, "string,int", "string,string", "enum,string")
+				rj = append(rj, "string,int", "enum,string")
 			}
 			for _, ts := range rj {
 				jobs = append(jobs, Job{Harness: "VX_C14_readjson", Params: P("types", ts, "n", "2", "strlen", "1"), MaxPaths: 300000})
@@ -798,19 +803,34 @@ func init() {
 		Jobs: func(tier string) []Job {
 			var jobs []Job
 			docs := []string{"a,b\n1,2\n3,4\n", "a,b\n1,2\n3,4", "a,b\n\"x\",\"y\"\n\"z\",\"w\"\n", "a\n1\n2\n3\n", "a,b\n"}
+			chunks := []string{"0", "1", "3"}
+			if tier == "thorough" {
+				docs = append(docs, "a,b\r\n1,2\r\n3,4\r\n", "a,b,c\n1,,\n,\"q\"\"r\",3\n", "a\n\"multi\nline\"\nx\n", "a,b\n1.5,true\n2.5,false\n-0,true\n", "a,b\n1,2\n3,4\n5,6\n7,8\n9,10\n11,12\n")
+				chunks = []string{"0", "1", "2", "3", "5", "7"}
+			}
 			for _, d := range docs {
-				for _, ch := range []string{"0", "1", "3"} {
+				for _, ch := range chunks {
 					jobs = append(jobs, Job{Harness: "VX_C15_readcsv", Params: P("doc", d, "chunk", ch)})
 				}
 			}
 			jobs = append(jobs, Job{Harness: "VX_C15_readcsv", Params: P("doc", "a,b\n1,2\n3,4\n", "chunk", "2", "types", "string")})
 			for _, op := range []string{"tocsv", "tojson"} {
-				for _, n := range []string{"0", "1", "2"} {
+				ns := []string{"0", "1", "2"}
+				if tier == "thorough" {
+					ns = append(ns, "3", "4")
+				}
+				for _, n := range ns {
 					jobs = append(jobs, Job{Harness: "VX_C15_write", Params: P("op", op, "n", n)})
 				}
 			}
 			jobs = append(jobs, Job{Harness: "VX_C15_readjson", Params: P("chunk", "0")}, Job{Harness: "VX_C15_readjson", Params: P("chunk", "3")})
 			jobs = append(jobs, Job{Harness: "VX_C15_write_big", Params: P("op", "tojson", "n", "1100"), MaxSteps: 400000000}, Job{Harness: "VX_C15_write_big", Params: P("op", "tocsv", "n", "1100"), MaxSteps: 400000000})
+			if tier == "thorough" {
+				for _, n := range []string{"1024", "1025", "2100", "4100"} {
+					jobs = append(jobs, Job{Harness: "VX_C15_write_big", Params: P("op", "tojson", "n", n), MaxSteps: 2000000000}, Job{Harness: "VX_C15_write_big", Params: P("op", "tocsv", "n", n), MaxSteps: 2000000000})
+				}
+				jobs = append(jobs, Job{Harness: "VX_C15_readjson", Params: P("chunk", "1")}, Job{Harness: "VX_C15_readjson", Params: P("chunk", "7")})
+			}
 			jobs = append(jobs, Job{Harness: "VX_C15_sql", Params: P("what", "prepare", "at", "0")}, Job{Harness: "VX_C15_sql", Params: P("what", "query", "at", "0")})
 			for at := 0; at <= 3; at++ {
 				jobs = append(jobs, Job{Harness: "VX_C15_sql", Params: P("what", "next", "at", itoa(at))})
@@ -821,10 +841,13 @@ func init() {
 			return jobs
 		},
 		Bounds: func(tier string) string {
-			return "ReadCSV: 5 documents (quoted/unquoted, with/without final line break, header only) x read chunk sizes {whole,1,3}, failure position symbolic over every byte offset 0..len; ToCSV/ToJSON: frames of 0-2 rows (int + string column, symbolic cells), writer failing at its k-th call for every k in 0..6, with and without a short write; SQL: Prepare/Query failing, Rows ending with an error after 0..3 of 3 rows, Exec failing at statement 0..1"
+			if tier == "thorough" {
+				return "ReadCSV: 10 documents (quoted/unquoted, CRLF, embedded line breaks and escaped quotes, empty fields, typed inference, with/without final line break, header only) x read chunk sizes {whole,1,2,3,5,7}, failure position symbolic over every byte offset 0..len, failing call with/without data, plain error or error wrapping io.EOF; ToCSV/ToJSON: frames of 0-4 rows (int + string column over {x, quote}), writer failing at its k-th call for k=0..6 with or without a short write; frames of 1024/1025/1100/2100/4100 rows with the writer failing 1-3 bytes before the end; ReadJSON: one document, every failure offset, chunks {whole,1,3,7}; SQL: see outside_claim"
+			}
+			return "ReadCSV: 5 documents (quoted/unquoted, with/without final line break, header only) x read chunk sizes {whole,1,3}, failure position symbolic over every byte offset 0..len, failing call with/without data, plain error or error wrapping io.EOF; ToCSV/ToJSON: frames of 0-2 rows (int + string column over {x, quote}), writer failing at its k-th call for k=0..6 with or without a short write; 1100-row frames with the writer failing 1-3 bytes before the end; ReadJSON: one document, every failure offset, chunks {whole,3}; SQL: see outside_claim"
 		},
 		Assume:   []string{"a reader failure is a non-EOF error returned instead of further data", "encoding/csv.Writer and bufio run for real (failures surface at Flush)"},
-		Outside:  []string{"ReadJSON (encoding/json not executable by the engine)", "SQL faults are decided against the database/sql contract model of C19 (Prepare/Query fail, result set ending with an error after k=0..3 rows, k-th Exec failing)"},
+		Outside:  []string{"encoding/json's decoder itself (ReadJSON faults are decided behind the decoder model of C14)", "SQL faults are decided against the database/sql contract model of C19 (Prepare/Query fail, result set ending with an error after k=0..3 rows, k-th Exec failing)"},
 		MinReach: []string{"end"}, TVVectors: 1,
 	})
 }
@@ -838,8 +861,16 @@ func init() {
 			if tier == "thorough" {
 				n = "3"
 			}
+			tsTo := []string{"int,string", "float,bool,enum"}
+			tsRead := []string{"int", "float", "bool", "string", "int,string", "float,string,bool"}
+			tsRT := []string{"int,string", "float,bool", "enum,int", "string,enum,float"}
+			if tier == "thorough" {
+				tsTo = append(tsTo, "string,string", "enum,float,int", "bool", "int,float,bool,string,enum")
+				tsRead = append(tsRead, "string,string", "bool,int,float", "string,float", "int,float,bool,string")
+				tsRT = append(tsRT, "bool,string", "int,float,bool,string,enum", "enum,enum", "float")
+			}
 			for _, d := range []string{"postgres", "sqlite", "mysql", "plain", "incr"} {
-				for _, ts := range []string{"int,string", "float,bool,enum"} {
+				for _, ts := range tsTo {
 					table := "t"
 					if d == "mysql" {
 						table = "my`tab"
@@ -848,20 +879,28 @@ func init() {
 				}
 			}
 			jobs = append(jobs, Job{Harness: "VX_C19_tosql", Params: P("types", "string", "n", "0", "dialect", "plain", "table", "t")})
-			for _, ts := range []string{"int", "float", "bool", "string", "int,string", "float,string,bool"} {
+			for _, ts := range tsRead {
 				for _, by := range []string{"false", "true"} {
 					jobs = append(jobs, Job{Harness: "VX_C19_readsql", Params: P("types", ts, "n", n, "bytes", by)})
 				}
 			}
-			for _, ts := range []string{"int,string", "float,bool", "enum,int", "string,enum,float"} {
+			for _, ts := range tsRT {
 				jobs = append(jobs, Job{Harness: "VX_C19_roundtrip", Params: P("types", ts, "n", n)})
+			}
+			if tier == "thorough" {
+				for _, ts := range []string{"int,string", "float,bool,enum"} {
+					jobs = append(jobs, Job{Harness: "VX_C19_roundtrip", Params: P("types", ts, "n", "4")})
+				}
+				for _, ts := range []string{"int,string", "float,bool"} {
+					jobs = append(jobs, Job{Harness: "VX_C19_readsql", Params: P("types", ts, "n", "4", "bytes", "true")})
+				}
 			}
 			jobs = append(jobs, Job{Harness: "VX_C19_sequence", Params: P("d1", "sqlite", "d2", "postgres")}, Job{Harness: "VX_C19_sequence", Params: P("d1", "incr", "d2", "plain")}, Job{Harness: "VX_C19_sequence", Params: P("d1", "mysql", "d2", "sqlite")})
 			jobs = append(jobs, Job{Harness: "VX_C19_precision"})
 			return jobs
 		},
 		Bounds: func(tier string) string {
-			return "frames of 2 (thorough 3) rows derived from a larger physical frame, 1-3 columns over the five types with symbolic cells; dialects postgres/sqlite/mysql/plain/incrementing, a table name containing the escape character; result sets of the driver types int64, float64, bool, string, []byte, NULL (NULLs in text/float columns, including leading NULLs); write-then-read round trips"
+			return "frames of 2 (thorough 3-4) rows derived from a larger physical frame, 1-3 (thorough 1-5) columns over the five types with symbolic cells; dialects postgres/sqlite/mysql/plain/incrementing, a table name containing the escape character; result sets of the driver types int64, float64, bool, string, []byte, NULL (NULLs in text/float columns, including leading NULLs); write-then-read round trips"
 		},
 		Assume:   []string{"database/sql is a contract model in the engine (Tx.Prepare/Exec, Stmt.Query/Close, Rows.Next/Columns/Scan/Err): Scan passes each driver value to the destination's Scan method; Exec arguments are normalised like database/sql's default converter; natively a scripted in-memory driver behind the real database/sql is used for replay", "Precision is exercised on concrete values only; the coercion options are not exercised"},
 		Outside:  []string{"real drivers' type mapping", "Coerce and Precision options", "identifier escaping rules beyond wrapping in the escape character (the code does not double embedded escape characters; the statement does not require it)"},
